@@ -79,7 +79,7 @@ func (h *ConsistentHash) AddWithReplicas(node any, replicas int) {
 	for i := 0; i < replicas; i++ {
 		hash := h.hashFunc([]byte(nodeRepr + strconv.Itoa(i)))
 		h.keys = append(h.keys, hash)
-		h.ring[hash] = append(h.ring[hash], node)
+		h.ring[hash] = insertRingNode(h.ring[hash], node, nodeRepr)
 	}
 
 	sort.Slice(h.keys, func(i, j int) bool {
@@ -136,32 +136,53 @@ func (h *ConsistentHash) Remove(node any) {
 
 	for i := 0; i < h.replicas; i++ {
 		hash := h.hashFunc([]byte(nodeRepr + strconv.Itoa(i)))
+		// the node might have been added with fewer replicas, and the hash might
+		// be shared with other nodes, only drop the virtual node that it owns.
+		if !h.removeRingNode(hash, nodeRepr) {
+			continue
+		}
+
 		index := sort.Search(len(h.keys), func(i int) bool {
 			return h.keys[i] >= hash
 		})
 		if index < len(h.keys) && h.keys[index] == hash {
 			h.keys = append(h.keys[:index], h.keys[index+1:]...)
 		}
-		h.removeRingNode(hash, nodeRepr)
 	}
 
 	h.removeNode(nodeRepr)
 }
 
-func (h *ConsistentHash) removeRingNode(hash uint64, nodeRepr string) {
-	if nodes, ok := h.ring[hash]; ok {
-		newNodes := nodes[:0]
-		for _, x := range nodes {
-			if repr(x) != nodeRepr {
-				newNodes = append(newNodes, x)
-			}
+// removeRingNode removes one virtual node of nodeRepr from the given hash,
+// and reports whether there was one.
+func (h *ConsistentHash) removeRingNode(hash uint64, nodeRepr string) bool {
+	nodes := h.ring[hash]
+	for i, x := range nodes {
+		if repr(x) != nodeRepr {
+			continue
 		}
-		if len(newNodes) > 0 {
-			h.ring[hash] = newNodes
+
+		if len(nodes) > 1 {
+			h.ring[hash] = append(nodes[:i], nodes[i+1:]...)
 		} else {
 			delete(h.ring, hash)
 		}
+		return true
 	}
+
+	return false
+}
+
+// insertRingNode inserts node into nodes that share the same hash, ordered by repr,
+// to make the result of Get independent of the order in which the nodes were added.
+func insertRingNode(nodes []any, node any, nodeRepr string) []any {
+	index := sort.Search(len(nodes), func(i int) bool {
+		return repr(nodes[i]) > nodeRepr
+	})
+	nodes = append(nodes, nil)
+	copy(nodes[index+1:], nodes[index:])
+	nodes[index] = node
+	return nodes
 }
 
 func (h *ConsistentHash) addNode(nodeRepr string) {
